@@ -111,18 +111,25 @@ def search(clause, maxes, flows, strategies, depth):
   tss = [1, 2]
   ops = [('s', m, t) for m in metrics for t in tss] + [('d',)]
   tried = 0
+  # (cacheFull can only fire when MAX <= size <= hard limit - 1, i.e. under flow control with
+  # MAX_CACHE_SIZE >= 20: such caches start pre-filled)
+  grid = [(mx, flow, 0) for mx in maxes for flow in flows]
+  if any(m != float('inf') for m in maxes) and True in flows:
+    grid += [(20, True, pre) for pre in (18, 19, 20)]
   for strat in strategies:
-    for mx in maxes:
-      for flow in flows:
-        for n in range(1, depth + 1):
+    for (mx, flow, prefill) in grid:
+      if True:
+        for n in range(1, min(depth, 3) + 1 if prefill else depth + 1):
           for seq in itertools.product(ops, repeat=n):
             configure(mx, flow)
             state.cacheTooFull = False
             instrumentation.stats.clear()
             cls = STRATS[strat]
             c = C._MetricCache(cls)
+            for i in range(prefill):
+              c.store('p' if i % 4 else 'q', (100 + i, 1000.0 + i))
             val = -1       # the first stored value is 0.0 (falsy): a presence test must not be a truth test
-            hist = []
+            hist = [['prefilled', prefill]] if prefill else []
             bad = None
             for op in seq:
               tried += 1
